@@ -397,9 +397,19 @@ type SharedBody = Arc<Mutex<Option<Pin<Box<SBody>>>>>;
 /// A reusable actor thread. Creating and destroying two OS threads per schedule serialises all
 /// harness workers on the kernel's address-space lock; each worker keeps one pair instead.
 struct ActorThread {
-    tx: std::sync::mpsc::Sender<Box<dyn FnOnce() + Send>>,
+    tx: Option<std::sync::mpsc::Sender<Box<dyn FnOnce() + Send>>>,
     done: std::sync::mpsc::Receiver<()>,
     thread: std::thread::Thread,
+    handle: Option<std::thread::JoinHandle<()>>,
+}
+
+impl Drop for ActorThread {
+    fn drop(&mut self) {
+        drop(self.tx.take());
+        if let Some(h) = self.handle.take() {
+            let _ = h.join();
+        }
+    }
 }
 
 impl ActorThread {
@@ -414,10 +424,10 @@ impl ActorThread {
                 }
             }
         });
-        ActorThread { tx, done, thread: h.thread().clone() }
+        ActorThread { tx: Some(tx), done, thread: h.thread().clone(), handle: Some(h) }
     }
     fn run(&self, job: Box<dyn FnOnce() + Send>) {
-        self.tx.send(job).expect("actor thread alive");
+        self.tx.as_ref().expect("sender present").send(job).expect("actor thread alive");
     }
     fn wait(&self) {
         let _ = self.done.recv();
